@@ -239,6 +239,13 @@ def check_model(inv, specs, trace, oc, out_v, label=None):
             swift_builtin = {'String', 'Int32', 'UInt32', 'Int64', 'UInt64', 'Double', 'Float', 'Bool', 'Data', 'Date', 'NSNumber', 'Array', 'Dictionary', 'NSString',
                              'NSArray', 'NSDictionary', 'NSData', 'NSDate', 'JSON', 'Void', 'Any', 'NSObject', 'Int', 'UInt'}
             declared_local = {nm for (k, nm), c in decl.items()}
+            if '--objc' in args:
+                # the Objective-C compatibility layer wraps the Swift types of the plain swift_types output for the same spec
+                plain = impl.backend_outputs(impl.compile_specs(specs).api, ['swift_types'], args_override={'swift_types': []})['swift_types']
+                if 'crash' not in plain:
+                    for fn2, data2 in plain['files'].items():
+                        if fn2.endswith('.swift'):
+                            declared_local.update(re.findall(r'\b(?:class|enum|struct)\s+(\w+)', data2.decode('utf-8', 'replace')))
             for fn, code in codes.items():
                 for m in re.finditer(r'(?:Dictionary<\s*String\s*,\s*|Array<\s*)([A-Z]\w*)(?![\w.])', code):
                     if m.group(1) not in swift_builtin and m.group(1) not in declared_local:
@@ -246,18 +253,28 @@ def check_model(inv, specs, trace, oc, out_v, label=None):
             declared_ns = {pascal(nsn) for nsn in namespaces}
             declared_types = {(pascal(nsn), d.name) for nsn, d in types} | {(pascal(nsn), d.name + 'Serializer') for nsn, d in types}
             for a, b in refs:
-                if a in declared_ns and (a, b) not in declared_types and not b.endswith('Serializer'):
+                # a qualified name resolves if the spec declares it under the plain naming scheme or the output itself declares it
+                # (the backends escape some type names, e.g. Client -> Client_)
+                if a in declared_ns and (a, b) not in declared_types and b not in declared_local and not b.endswith('Serializer'):
                     out_v.append(viol('swift-undeclared-type', 'output refers to %s.%s, which is not declared' % (a, b), inputs))
-                elif a in declared_ns and b.endswith('Serializer') and (a, b) not in declared_types:
+                elif a in declared_ns and b.endswith('Serializer') and (a, b) not in declared_types and b not in declared_local:
                     out_v.append(viol('swift-undeclared-type:serializer', 'output refers to %s.%s, which is not declared' % (a, b), inputs))
         elif backend == 'swift_client' and '--objc' not in args:
             # qualified type names <Ns>.<Type> used by the client must be types the spec declares in that namespace
+            # they are resolved against what swift_types declares for the same spec (inside the class of namespace <Ns>), so that the naming
+            # scheme of the backends - including its escapes for reserved words - is not re-implemented here
             _decl, crefs = swift_scan(codes)
             c_ns = {pascal(nsn) for nsn in namespaces}
-            c_types = {(pascal(nsn), d.name) for nsn, d in types} | {(pascal(nsn), d.name + 'Serializer') for nsn, d in types}
-            for a, b in sorted(crefs):
-                if a in c_ns and (a, b) not in c_types:
-                    out_v.append(viol('swift-client-undeclared-type', 'swift_client output refers to %s.%s, which the spec does not declare in namespace %s' % (a, b, a), inputs))
+            tres0 = impl.backend_outputs(impl.compile_specs(specs).api, ['swift_types'], args_override={'swift_types': []})['swift_types']
+            if 'crash' not in tres0:
+                declared_in = {}
+                for fn, data in tres0['files'].items():
+                    if fn.endswith('.swift'):
+                        c2, _e = lex(data.decode('utf-8', 'replace'), 'swift')
+                        declared_in[fn[:-6]] = set(re.findall(r'\b(?:class|enum|struct)\s+(\w+)', c2 or ''))
+                for a, b in sorted(crefs):
+                    if a in c_ns and a in declared_in and b not in declared_in[a]:
+                        out_v.append(viol('swift-client-undeclared-type', 'swift_client output refers to %s.%s, which the swift_types output for the same spec does not declare in %s' % (a, b, a), inputs))
             # <Ns>Routes.swift refers to the route objects <Ns>.<route> that swift_types declares: resolve them against its output for the same spec
             tres = impl.backend_outputs(impl.compile_specs(specs).api, ['swift_types'], args_override={'swift_types': []})['swift_types']
             if 'crash' not in tres:
@@ -281,6 +298,20 @@ def check_model(inv, specs, trace, oc, out_v, label=None):
                         if not re.search(r'\bstatic\s+let\s+%s\b' % re.escape(m.group(2)), home):
                             out_v.append(viol('swift-client-undeclared-route', '%s uses %s.%s, which the swift_types output for the same spec does not declare'
                                               % (fn, m.group(1), m.group(2)), inputs))
+        elif backend == 'swift_client' and '--objc' in args:
+            tres1 = impl.backend_outputs(impl.compile_specs(specs).api, ['swift_types'], args_override={'swift_types': ['--objc']})['swift_types']
+            if 'crash' not in tres1:
+                declared_x = set()
+                for src in (res['files'], tres1['files']):
+                    for fn, data in src.items():
+                        if fn.endswith('.swift'):
+                            declared_x.update(re.findall(r'\b(?:class|enum|struct|protocol|typealias)\s+(DBX\w+)', data.decode('utf-8', 'replace')))
+                # only the names that are derived from the spec (DBX<Namespace>...): the SDK's own classes are not generated
+                prefixes = tuple('DBX' + pascal(nsn) for nsn in namespaces)
+                for fn, code in codes.items():
+                    for ident in sorted(set(re.findall(r'\bDBX[A-Z]\w*', code))):
+                        if ident.startswith(prefixes) and ident not in declared_x:
+                            out_v.append(viol('swift-objc-client-undeclared-class', '%s uses %s, which neither swift_client --objc nor swift_types --objc declares' % (fn, ident), inputs))
         elif backend == 'obj_c_client':
             # one request method per route whose auth type the client was asked for (-w user), none for the others
             for nsn, r in routes:
@@ -383,6 +414,15 @@ def shape_specs():
             for style in ('rpc', 'upload', 'download'):
                 out.append(('route-%s:%s:%s' % (slot, style, sh), [base_other, ('sh.stone', common + 'route r(%s)\n    attrs\n        style = "%s"\n' % (sig % sh, style)), ('cfg.stone', c12.CFG)],
                             (nss, base_types, [('sh', Rt('r'))])))
+    # deprecated routes (plain and with a successor) in every style; route types whose names the Swift backends escape
+    for style in ('rpc', 'upload', 'download'):
+        for dep in ('deprecated', 'deprecated by succ'):
+            body = common + 'route succ(Void, Void, Void)\n\nroute r(Plain, Uni, Void) %s\n    attrs\n        style = "%s"\n' % (dep, style)
+            out.append(('route-deprecated:%s:%s' % (style, dep.replace(' ', '-')), [base_other, ('sh.stone', body), ('cfg.stone', c12.CFG)], (nss, base_types, [('sh', Rt('r')), ('sh', Rt('succ'))])))
+    for nm in ('Client', 'Description', 'Default', 'Hash', 'Protocol', 'Extension', 'Type', 'Error', 'Data', 'Result'):
+        body = common + 'struct %s\n    z Int32\n\nunion %sKind\n    k0\n    k1 %s\n\nroute rw(%s, %s, %sKind)\n\nroute rl(Void, List(%s), Void)\n' % ((nm,) * 7)
+        out.append(('reserved-type-name:' + nm, [base_other, ('sh.stone', body), ('cfg.stone', c12.CFG)],
+                    (nss, base_types, [('sh', Rt('rw')), ('sh', Rt('rl'))])))
     for t, v in DEFAULTS:
         out.append(('default:' + t, [base_other, ('sh.stone', common + 'struct H\n    f %s = %s\n' % (t, v)), ('cfg.stone', c12.CFG)], (nss, base_types + [('sh', T('H', True, [Mem('f')]))], [])))
     # namespaces whose content is only routes (types imported), only aliases, or nothing but an import
